@@ -6,25 +6,34 @@
   model's own table assembler (`SSys.compRow` / `SSys.compRows`, Model/Table.lean) fed with an exact
   steady state of the model's own sweeps (`SSys.fwdProp` / `SSys.backProp`, Model/Solver.lean):
 
-   A. `local_fed`, `local_source_partial`, `live_load` : one component whose `(Vout, Iin)` are what its
-      own voltage / current law return for `(Vin, Iout)` has a row with `Power − Loss = |Vout|·Iout`
-      and `Power = |Vin|·Iin` (loads: `Power + Loss = |Vin|·Iin`) — every kind, awake / asleep / dead
-      supply / off-flag, by instantiating the `pml_*` identities of Props/C02.
-   B. `TreeWF` (well-formed solver view), `Steady` (exact steady state), `steady_cell`, `compRow_single`,
-      `compRow_root` (the cells of a row).
-   C. `row_power_identity`, `row_power_identity_source_partial` : the per-row identity for the rows
-      `compRow` builds in a steady state.
+   A. `local_fed`, `local_source_partial`, `live_load`, `local_mux` (§G) : one component whose
+      `(Vout, Iin)` are what its own voltage / current law return for `(Vin, Iout)` has a row with
+      `Power − Loss = |Vout|·Iout` and `Power = |Vin|·Iin` (loads: `Power + Loss = |Vin|·Iin`) — every
+      kind, awake / asleep / dead supply / off-flag, by instantiating the `pml_*` identities of Props/C02.
+   B. `TreeWF` (well-formed solver view), `Steady` (exact steady state: `fwdProp v i st = ok (v, _)`,
+      `backProp v i st = i`, a flag only on a 0 V output), `steady_cell`, `compRow_single`, `compRow_root`.
+   C. `row_power_identity`, `row_power_identity_source_partial` (and `row_power_identity_mux`, §G) : the
+      per-row identity for the rows `compRow` builds in a steady state.
    D. `compRows_numeric` : `compRows` is `topo.map (compRow …)` for every function of a row that does
       not read the Domain cell (the fold only threads the domain bookkeeping).
-   E. `node_balance`, `table_balance_partial` : the rows of `compRows` satisfy every hypothesis of
-      `system_balance`, hence  Σ_{SOURCE} Power = Σ_{LOAD} (Power + Loss) + Σ_{others} Loss.
+   E. `node_balance`, `table_balance_partial` : for a tree WITHOUT PMux the rows of `compRows` satisfy
+      every hypothesis of `system_balance`, hence
+          Σ_{SOURCE rows} Power = Σ_{LOAD rows} (Power + Loss) + Σ_{other rows} Loss.
+   F. `steady_currents_nonneg` : the currents of a steady state are ≥ 0 (induction from the leaves up
+      along `_topo_nodes`), so the balance theorems need no hypothesis on `i` beyond `Steady`.
+   G. `table_balance_mux_partial` : the same balance WITH PMux — a mux is fed by the input it selected
+      (`feederM`; current attribution as in Props/C05), a mux without live input books no power.
 
-  What is NOT covered / what makes the `_partial` theorems partial:
+  What is NOT covered / what makes the `_partial` theorems partial (hypothesis `CompsOK`):
    * finding F01: a Source with `vo < 0` and `rs ≠ 0` is excluded (`CompsOK.f01`), as in
-     `pml_source_spec_partial`; the full statement fails (`C02.source_balance_full_fails`).
+     `pml_source_spec_partial`.  Without the exclusion the table balance fails: `table_balance_full_fails`.
    * a Converter with `vo = 0` is excluded (`CompsOK.conv`): the constructor accepts it, and then the
      current law returns 0 A while the loss law books `|iq·Vin|` (awake, unloaded) resp. `|iis·Vin|`
-     (asleep) as Loss: Power − Loss < 0.  See `converter_vo0_breaks_identity`.
+     (asleep) as Loss: Power − Loss < 0 (`converter_vo0_breaks_identity`, `table_balance_full_f01_fails`;
+     the Python shows the same row: Power 0 W, Loss 0.5 W).
+   * phase values (`phase_conf[phase]` of a load) are assumed ≥ 0 (`PhaseValOK`); they are not part of `Phys`.
+   * the link from the component rows to the "Subsystem" / "System total" rows (grouping by Domain) is
+     Props/C07, not repeated here; approximate (tolerance-converged) states are not covered: `Steady` is exact.
 -/
 import SysLoss.Proofs.Basic
 import SysLoss.Spec.Laws
@@ -42,6 +51,8 @@ import Mathlib.Tactic.NormNum
 
 set_option linter.unusedSectionVars false
 set_option linter.unusedVariables false
+set_option linter.unnecessarySeqFocus false
+set_option linter.unusedTactic false
 
 namespace SysLoss
 namespace C02
@@ -1106,6 +1117,548 @@ theorem row_power_identity_wf (s : SSys α) (hwf : TreeWF s)
     (steady_currents_nonneg s hwf hphys phase hpv v i st hst.back) n p nd (mem_of_node s hwf n nd hnode)
     hnode hpar hs hm hld (hphys n nd hnode) hcv d
 
+/-! ### G. systems with PMux: the feeder of a mux is its selected input -/
+
+theorem pri_some_spec (off : List Bool) (vi : List α) (k : Nat) (h : priInpAux off vi 0 = some k) :
+    k < off.length ∧ k < vi.length ∧ off.getD k false = false ∧ vi.getD k 0 ≠ 0 := by
+  obtain ⟨o, x, ho, hx, hof, hne⟩ := ((C05.pri_first_live off vi).1 k).mp h |>.1
+  have h1 : k < off.length := by
+    by_contra hh
+    rw [List.getElem?_eq_none (by omega)] at ho; cases ho
+  have h2 : k < vi.length := by
+    by_contra hh
+    rw [List.getElem?_eq_none (by omega)] at hx; cases hx
+  refine ⟨h1, h2, ?_, ?_⟩
+  · simp [List.getD, ho, hof]
+  · simp [List.getD, hx, hne]
+
+/-- **A PMux in a local steady state.**  With a live input `k`, the row built from `(V_k, Vout, Iin, Iout)`
+    books `|V_k|·Iin` as Power and passes on `|Vout|·Iout`; without a live input it outputs 0 V and draws 0 A. -/
+theorem local_mux (c : Comp α) (hk : c.kind = .pmux) (hc : c.Phys) (vi : List α) (off : List Bool)
+    (io ta : α) (ph : PhaseCtx α) (vo ii : α) (b' : Bool) (hio : 0 ≤ io)
+    (hfwd : c.solvOutpVolt vi io ph off = .ok (vo, b'))
+    (hback : c.solvInpCurr vi io ph off = ii) :
+    (∀ k, priInpAux off vi 0 = some k →
+        FedOK (c.solvPwrLoss (vi.getD k 0) vo ii io ta ph) (vi.getD k 0) vo ii io) ∧
+    (priInpAux off vi 0 = none → vo = 0 ∧ ii = 0) := by
+  constructor
+  · intro k hsel
+    obtain ⟨_, _, _, hvk⟩ := pri_some_spec off vi k hsel
+    have hz : isZ (vi.getD k 0) = false := (isZ_false_iff _).mpr hvk
+    unfold Comp.solvInpCurr at hback
+    simp only [hk, hsel, nabs_eq_abs] at hback
+    cases hina : ph.inactive with
+    | true =>
+      simp only [hina, if_true] at hback
+      have hvo : vo = 0 := by
+        unfold Comp.solvOutpVolt at hfwd
+        simp only [hk, hsel, hina, if_true] at hfwd
+        cases hl : c.rsList with
+        | some l =>
+          simp only [hl] at hfwd
+          by_cases hlen : l.length < vi.length
+          · simp [hlen] at hfwd
+          · simp only [hlen, if_false, Except.ok.injEq, Prod.mk.injEq] at hfwd
+            exact hfwd.1.symm
+        | none =>
+          simp only [hl, Except.ok.injEq, Prod.mk.injEq] at hfwd
+          exact hfwd.1.symm
+      obtain ⟨h1, h2, h3⟩ := pml_sleep c (Or.inr (Or.inr (Or.inr hk))) hc (vi.getD k 0) vo ii io ta ph hina hvk
+      unfold FedOK
+      rw [h3, h1, hvo, ← hback]; simp [mul_comm]
+    | false =>
+      simp only [hina, Bool.false_eq_true, if_false] at hback
+      have hii : 0 ≤ ii := by rw [← hback]; have := hc.par |io| |vi.getD k 0|; linarith
+      obtain ⟨h1, _, _⟩ := pml_resid_switch c (Or.inr hk) (vi.getD k 0) vo ii io ta ph hina hvk hii hio
+      have hpw := pwr_awake c (Or.inr (Or.inr (Or.inr hk))) (vi.getD k 0) vo ii io ta ph hina hvk
+      refine ⟨?_, ?_⟩
+      · rw [h1, ← hback]; ring
+      · rw [hpw, abs_mul_of_nonneg_right _ _ hii]
+  · intro hnone
+    unfold Comp.solvOutpVolt at hfwd
+    unfold Comp.solvInpCurr at hback
+    simp only [hk, hnone, Except.ok.injEq, Prod.mk.injEq] at hfwd hback
+    exact ⟨hfwd.1.symm, hback.symm⟩
+
+/-- the feeder of a node: the selected input of a PMux (none when no input is live), the only
+    parent of any other component (none for a root) -/
+def feederM (s : SSys α) (v : Vec α) (st : St) (n : Nat) : Option Nat :=
+  match s.node? n with
+  | none => none
+  | some nd =>
+    if nd.comp.kind = .pmux then
+      (priInpAux (nd.parents.map (sget st)) (nd.parents.map (vget v)) 0).map fun k => nd.parents.getD k 0
+    else nd.parents.head?
+
+/-- the input voltage a mux row reports -/
+def muxVin (v : Vec α) (st : St) (nd : SNode α) : α :=
+  match priInpAux (nd.parents.map (sget st)) (nd.parents.map (vget v)) 0 with
+  | some k => vget v (nd.parents.getD k 0)
+  | none => vget v (nd.parents.headD 0)
+
+/-- the Power / Loss cells of any row are the loss law applied to the row's own Vin, Vout, Iin, Iout -/
+theorem compRow_consistent (s : SSys α) (phase : String) (ta : α) (v i : Vec α) (st : St)
+    (n : Nat) (nd : SNode α) (hnode : s.node? n = some nd) (d : String) :
+    let r := (s.compRow phase ta v i st n d).1
+    ∃ VI IO, r.vin = some VI ∧ r.vout = some (vget v n) ∧ r.iin = some (vget i n) ∧ r.iout = some IO ∧
+      r.pwr = some (nd.comp.solvPwrLoss VI (vget v n) (vget i n) IO ta (nd.pconf.ctx phase)).pwr ∧
+      r.loss = some (nd.comp.solvPwrLoss VI (vget v n) (vget i n) IO ta (nd.pconf.ctx phase)).loss ∧
+      r.typ = nd.comp.kind.ctype.name ∧ (nd.parents ≠ [] → IO = ioOf s nd n v i st) := by
+  intro r
+  have hr : r = (s.compRow phase ta v i st n d).1 := rfl
+  unfold SSys.compRow at hr
+  simp only [hnode] at hr
+  rw [hr]
+  refine ⟨_, _, rfl, rfl, rfl, rfl, rfl, rfl, rfl, ?_⟩
+  intro hne
+  cases hp : nd.parents with
+  | nil => exact absurd hp hne
+  | cons a l => simp [ioOf]
+
+theorem rowOf_mux (s : SSys α) (phase : String) (ta : α) (v i : Vec α) (st : St)
+    (n : Nat) (nd : SNode α) (hnode : s.node? n = some nd) (hk : nd.comp.kind = .pmux)
+    (hpar : nd.parents ≠ []) :
+    rowOf s phase ta v i st n = ⟨muxVin v st nd, vget v n, vget i n, ioOf s nd n v i st,
+      (nd.comp.solvPwrLoss (muxVin v st nd) (vget v n) (vget i n) (ioOf s nd n v i st) ta (nd.pconf.ctx phase)).pwr,
+      (nd.comp.solvPwrLoss (muxVin v st nd) (vget v n) (vget i n) (ioOf s nd n v i st) ta (nd.pconf.ctx phase)).loss⟩ := by
+  have hvin : (s.compRow phase ta v i st n "").1.vin = some (muxVin v st nd) := by
+    unfold SSys.compRow muxVin Comp.priInp
+    cases hp : nd.parents with
+    | nil => exact absurd hp hpar
+    | cons p0 rest =>
+      simp only [hnode, hk, hp, List.isEmpty_cons, Bool.false_eq_true, if_false]
+      cases hsel : priInpAux (List.map (sget st) (p0 :: rest)) (List.map (vget v) (p0 :: rest)) 0 with
+      | none => simp
+      | some k =>
+        cases rest with
+        | nil =>
+          obtain ⟨h1, _, _, _⟩ := pri_some_spec _ _ k hsel
+          simp only [List.map_cons, List.map_nil, List.length_cons, List.length_nil] at h1
+          have : k = 0 := by omega
+          subst this; simp
+        | cons p1 rest' => simp
+  obtain ⟨VI, IO, c1, c2, c3, c4, c5, c6, _, c8⟩ := compRow_consistent s phase ta v i st n nd hnode ""
+  rw [hvin] at c1
+  have e1 : VI = muxVin v st nd := (Option.some.inj c1).symm
+  have e2 := c8 hpar
+  subst e1; subst e2
+  unfold rowOf cellsOf rP rL
+  rw [hvin, c2, c3, c4, c5, c6]; rfl
+
+theorem pri_none_head (o : Bool) (os : List Bool) (x : α) (xs : List α)
+    (h : priInpAux (o :: os) (x :: xs) 0 = none) : o = true ∨ x = 0 := by
+  unfold priInpAux at h
+  by_cases hc : (!o && !isZ x) = true
+  · simp [hc] at h
+  · simp only [Bool.and_eq_true, Bool.not_eq_true', not_and, Bool.not_eq_false] at hc
+    cases o with
+    | true => exact Or.inl rfl
+    | false => exact Or.inr ((isZ_iff x).mp (hc rfl))
+
+theorem getD_map_vget (v : Vec α) (pp : List Nat) (k : Nat) (hk : k < pp.length) :
+    (pp.map (vget v)).getD k 0 = vget v (pp.getD k 0) := by
+  simp [List.getD, List.getElem?_map, List.getElem?_eq_getElem hk]
+
+/-- a PMux node in a steady state: its row (which shows the selected input's voltage, or a dead
+    input's 0 V) balances; without a live input it outputs 0 V, draws 0 A and books no power -/
+theorem mux_node_ok (s : SSys α) (phase : String) (ta : α) (v i : Vec α) (st : St)
+    (hb : ∀ n ∈ s.topo, n < s.hidx) (hst : Steady s phase v i st) (hi : ∀ m, 0 ≤ vget i m)
+    (n : Nat) (nd : SNode α) (hn : n ∈ s.topo) (hnode : s.node? n = some nd)
+    (hk : nd.comp.kind = .pmux) (hpar : nd.parents ≠ []) (hc : nd.comp.Phys) :
+    FedOK (nd.comp.solvPwrLoss (muxVin v st nd) (vget v n) (vget i n) (ioOf s nd n v i st) ta (nd.pconf.ctx phase))
+      (muxVin v st nd) (vget v n) (vget i n) (ioOf s nd n v i st) ∧
+    (priInpAux (nd.parents.map (sget st)) (nd.parents.map (vget v)) 0 = none →
+      vget v n = 0 ∧ vget i n = 0 ∧
+      (nd.comp.solvPwrLoss (muxVin v st nd) (vget v n) (vget i n) (ioOf s nd n v i st) ta (nd.pconf.ctx phase)).pwr = 0) := by
+  obtain ⟨⟨b, hf⟩, hbk⟩ := steady_cell s phase v i st hb hst n hn
+  have hne : nd.parents.isEmpty = false := by
+    cases hp : nd.parents with
+    | nil => exact absurd hp hpar
+    | cons a l => rfl
+  unfold SSys.fwdAt SSys.lawArgs at hf
+  unfold SSys.backAt SSys.lawArgs at hbk
+  simp only [hnode, hne, Bool.false_eq_true, if_false] at hf hbk
+  obtain ⟨m1, m2⟩ := local_mux nd.comp hk hc _ _ (ioOf s nd n v i st) ta (nd.pconf.ctx phase) (vget v n)
+    (vget i n) b (ioOf_nonneg s nd n hnode v i st hi) hf hbk
+  cases hsel : priInpAux (nd.parents.map (sget st)) (nd.parents.map (vget v)) 0 with
+  | some k =>
+    have hm := m1 k hsel
+    obtain ⟨h1, _, _, _⟩ := pri_some_spec _ _ k hsel
+    rw [List.length_map] at h1
+    rw [getD_map_vget v nd.parents k h1] at hm
+    have e : muxVin v st nd = vget v (nd.parents.getD k 0) := by unfold muxVin; rw [hsel]
+    rw [e]
+    exact ⟨hm, fun h => by cases h⟩
+  | none =>
+    obtain ⟨hv0, hi0⟩ := m2 hsel
+    have e : muxVin v st nd = 0 := by
+      unfold muxVin; rw [hsel]
+      cases hp : nd.parents with
+      | nil => exact absurd hp hpar
+      | cons p0 rest =>
+        rw [hp] at hsel
+        simp only [List.map_cons] at hsel
+        rcases pri_none_head _ _ _ _ hsel with h | h
+        · exact hst.flag p0 h
+        · exact h
+    have hz : isZ (0 : α) = true := (isZ_iff _).mpr rfl
+    have hp0 : (nd.comp.solvPwrLoss 0 (vget v n) (vget i n) (ioOf s nd n v i st) ta (nd.pconf.ctx phase)) = PL.zeros 0 := by
+      unfold Comp.solvPwrLoss; simp [hk, hz]
+    rw [e, hp0, hv0, hi0]
+    refine ⟨⟨by simp [PL.zeros], by simp [PL.zeros]⟩, fun _ => ⟨rfl, rfl, rfl⟩⟩
+
+theorem parents_cases' (s : SSys α) (hwf : TreeWF s) (n : Nat) (nd : SNode α)
+    (h : s.node? n = some nd) (hk : nd.comp.kind ≠ .pmux) : nd.parents = [] ∨ ∃ p, nd.parents = [p] := by
+  cases hp : nd.parents with
+  | nil => exact Or.inl rfl
+  | cons p l =>
+    cases l with
+    | nil => exact Or.inr ⟨p, rfl⟩
+    | cons q l' => exact absurd (hwf.muxOnly n nd h (by rw [hp]; simp)) hk
+
+theorem mux_parents_ne (s : SSys α) (hwf : TreeWF s) (n : Nat) (nd : SNode α)
+    (h : s.node? n = some nd) (hk : nd.comp.kind = .pmux) : nd.parents ≠ [] := by
+  intro e
+  have := (hwf.rootSrc n nd h).mp e
+  rw [hk] at this; cases this
+
+theorem feederM_nonmux (s : SSys α) (v : Vec α) (st : St) (n : Nat) (nd : SNode α)
+    (h : s.node? n = some nd) (hk : nd.comp.kind ≠ .pmux) : feederM s v st n = nd.parents.head? := by
+  unfold feederM; simp only [h, hk, if_false]
+
+theorem feederM_mux (s : SSys α) (v : Vec α) (st : St) (n : Nat) (nd : SNode α)
+    (h : s.node? n = some nd) (hk : nd.comp.kind = .pmux) :
+    feederM s v st n =
+      (priInpAux (nd.parents.map (sget st)) (nd.parents.map (vget v)) 0).map fun k => nd.parents.getD k 0 := by
+  unfold feederM; simp only [h, hk, if_true]
+
+theorem getD_mem_of_lt (pp : List Nat) (k : Nat) (hk : k < pp.length) : pp.getD k 0 ∈ pp := by
+  simp [List.getD, List.getElem?_eq_getElem hk]
+
+theorem feederM_mem (s : SSys α) (v : Vec α) (st : St) (n p : Nat) (nd : SNode α)
+    (h : s.node? n = some nd) (hf : feederM s v st n = some p) : p ∈ nd.parents := by
+  by_cases hk : nd.comp.kind = .pmux
+  · rw [feederM_mux s v st n nd h hk] at hf
+    cases hsel : priInpAux (nd.parents.map (sget st)) (nd.parents.map (vget v)) 0 with
+    | none => rw [hsel] at hf; cases hf
+    | some k =>
+      rw [hsel] at hf
+      simp only [Option.map_some, Option.some.injEq] at hf
+      obtain ⟨h1, _, _, _⟩ := pri_some_spec _ _ k hsel
+      rw [List.length_map] at h1
+      rw [← hf]; exact getD_mem_of_lt _ _ h1
+  · rw [feederM_nonmux s v st n nd h hk] at hf
+    exact List.mem_of_mem_head? hf
+
+/-- **Current attribution in a steady state**: child `c` of `n` contributes its input current to `n`'s
+    output current iff `n` is `c`'s feeder (its only parent, or the input a mux selected) -/
+theorem share_eq (s : SSys α) (hwf : TreeWF s) (hphys : ∀ n nd, s.node? n = some nd → nd.comp.Phys)
+    (phase : String) (ta : α) (v i : Vec α) (st : St) (hst : Steady s phase v i st) (hi : ∀ m, 0 ≤ vget i m)
+    (n c : Nat) (nd : SNode α) (h : s.node? n = some nd) (hc : c ∈ nd.childs) :
+    s.childShare n i v st c = if feederM s v st c = some n then vget i c else 0 := by
+  obtain ⟨cd, hcd⟩ := Option.isSome_iff_exists.mp (hwf.chLive n nd h c hc)
+  have hin : n ∈ cd.parents := (hwf.link n c nd cd h hcd).mp hc
+  by_cases hk : cd.comp.kind = .pmux
+  · have hpne := mux_parents_ne s hwf c cd hcd hk
+    rw [feederM_mux s v st c cd hcd hk]
+    cases hsel : priInpAux (cd.parents.map (sget st)) (cd.parents.map (vget v)) 0 with
+    | none =>
+      obtain ⟨_, hdead⟩ := mux_node_ok s phase ta v i st hwf.bound hst hi c cd (mem_of_node s hwf c cd hcd) hcd
+        hk hpne (hphys c cd hcd)
+      have hshare : s.childShare n i v st c = vget i c := by
+        unfold SSys.childShare Comp.priInp
+        simp only [hcd, hk, hsel]
+      rw [hshare, (hdead hsel).2.1]; simp
+    | some k =>
+      obtain ⟨h1, _, _, _⟩ := pri_some_spec _ _ k hsel
+      rw [List.length_map] at h1
+      by_cases hlen : cd.parents.length > 1
+      · rw [C05.mux_current_attribution s i v st c cd hcd hk hlen k hsel n]
+        simp only [Option.map_some, Option.some.injEq]
+      · have hp : cd.parents = [n] := by
+          cases hpp : cd.parents with
+          | nil => rw [hpp] at hin; cases hin
+          | cons a l =>
+            cases l with
+            | nil => rw [hpp] at hin; simp only [List.mem_singleton] at hin; rw [hin]
+            | cons b l' => rw [hpp] at hlen; simp at hlen
+        rw [C05.single_parent_share s i v st c cd hcd n hp n]
+        have hk0 : k = 0 := by rw [hp] at h1; simp at h1; exact h1
+        subst hk0
+        simp [hp]
+  · rw [feederM_nonmux s v st c cd hcd hk]
+    rcases parents_cases' s hwf c cd hcd hk with h0 | ⟨p, h1⟩
+    · rw [h0] at hin; cases hin
+    · rw [h1] at hin; simp only [List.mem_singleton] at hin; subst hin
+      rw [C05.single_parent_share s i v st c cd hcd n h1 n, h1]; simp
+
+/-- the output current of a fed node is the sum of the input currents of the children it feeds -/
+theorem ioOf_shares (s : SSys α) (hwf : TreeWF s) (hphys : ∀ n nd, s.node? n = some nd → nd.comp.Phys)
+    (phase : String) (ta : α) (v i : Vec α) (st : St) (hst : Steady s phase v i st) (hi : ∀ m, 0 ≤ vget i m)
+    (n : Nat) (nd : SNode α) (h : s.node? n = some nd) :
+    ioOf s nd n v i st = (nd.childs.map fun c => if feederM s v st c = some n then vget i c else 0).sum := by
+  rw [ioOf_eq_sum s nd n h]
+  congr 1
+  apply List.map_congr_left
+  intro c hc
+  exact share_eq s hwf hphys phase ta v i st hst hi n c nd h hc
+
+/-- the listed nodes fed by `n` are those of its children that select it -/
+theorem kidsM_eq (s : SSys α) (hwf : TreeWF s) (v : Vec α) (st : St) (n : Nat) (nd : SNode α)
+    (h : s.node? n = some nd) :
+    kidsOf s.topo.toFinset (feederM s v st) n
+      = nd.childs.toFinset.filter fun c => feederM s v st c = some n := by
+  ext c
+  simp only [kidsOf, Finset.mem_filter, List.mem_toFinset]
+  constructor
+  · rintro ⟨hc, hf⟩
+    obtain ⟨cd, hcd⟩ := node_of_mem s hwf c hc
+    exact ⟨(hwf.link n c nd cd h hcd).mpr (feederM_mem s v st c n cd hcd hf), hf⟩
+  · rintro ⟨hc, hf⟩
+    exact ⟨(hwf.live c).mpr (hwf.chLive n nd h c hc), hf⟩
+
+/-- everything `system_balance` asks of one row, for any live node of a steady state (mux included) -/
+theorem row_ok (s : SSys α) (hwf : TreeWF s) (hok : CompsOK s)
+    (phase : String) (ta : α) (v i : Vec α) (st : St) (hst : Steady s phase v i st) (hi : ∀ m, 0 ≤ vget i m)
+    (n : Nat) (nd : SNode α) (hnode : s.node? n = some nd) :
+    let r := rowOf s phase ta v i st n
+    r.vout = vget v n ∧ r.iin = vget i n ∧
+    (∀ p, feederM s v st n = some p → r.vin = vget v p) ∧
+    (nd.comp.kind.ctype ≠ .LOAD →
+      r.pwr - r.loss = |r.vout| * r.iout ∧ (feederM s v st n ≠ none → r.pwr = |r.vin| * r.iin) ∧
+      (feederM s v st n = none → nd.comp.kind ≠ .source → r.pwr = 0)) ∧
+    (nd.comp.kind.ctype = .LOAD →
+      feederM s v st n ≠ none ∧ r.iout = 0 ∧ r.pwr + r.loss = |r.vin| * r.iin) ∧
+    r.iout = (nd.childs.map fun c => if feederM s v st c = some n then vget i c else 0).sum := by
+  intro r
+  have hr : r = rowOf s phase ta v i st n := rfl
+  have hn : n ∈ s.topo := mem_of_node s hwf n nd hnode
+  have hphys := hok.phys
+  have hshares := ioOf_shares s hwf hphys phase ta v i st hst hi n nd hnode
+  by_cases hk : nd.comp.kind = .pmux
+  · -- PMux
+    have hpne := mux_parents_ne s hwf n nd hnode hk
+    obtain ⟨⟨f1, f2⟩, hdead⟩ := mux_node_ok s phase ta v i st hwf.bound hst hi n nd hn hnode hk hpne
+      (hphys n nd hnode)
+    rw [rowOf_mux s phase ta v i st n nd hnode hk hpne] at hr
+    have hfm := feederM_mux s v st n nd hnode hk
+    rw [hr]
+    refine ⟨rfl, rfl, ?_, fun _ => ⟨f1, fun _ => f2, ?_⟩, ?_, hshares⟩
+    · intro p hp
+      rw [hfm] at hp
+      show muxVin v st nd = vget v p
+      unfold muxVin
+      cases hsel : priInpAux (nd.parents.map (sget st)) (nd.parents.map (vget v)) 0 with
+      | none => rw [hsel] at hp; cases hp
+      | some k =>
+        rw [hsel] at hp
+        simp only [Option.map_some, Option.some.injEq] at hp
+        rw [← hp]
+    · intro hnone _
+      rw [hfm] at hnone
+      have hsel : priInpAux (nd.parents.map (sget st)) (nd.parents.map (vget v)) 0 = none := by
+        cases hh : priInpAux (nd.parents.map (sget st)) (nd.parents.map (vget v)) 0 with
+        | none => rfl
+        | some k => rw [hh] at hnone; cases hnone
+      exact (hdead hsel).2.2
+    · intro hl; rw [hk] at hl; cases hl
+  · have hfm := feederM_nonmux s v st n nd hnode hk
+    rcases parents_cases' s hwf n nd hnode hk with h0 | ⟨p, h1⟩
+    · -- root
+      have hsrc := (hwf.rootSrc n nd hnode).mp h0
+      obtain ⟨g1, g2⟩ := root_node_ok s phase ta v i st hwf.bound hst hi n nd hn hnode h0 hsrc
+        (hphys n nd hnode) (hok.f01 n nd hnode hsrc) (vget v n + nd.comp.rs * vget i n) (vget v n)
+      rw [rowOf_root s phase ta v i st n nd hnode h0] at hr
+      rw [hr, hfm, h0]
+      refine ⟨rfl, rfl, fun p hp => (by cases hp), fun _ => ⟨g1, fun hh => absurd rfl hh, fun _ hh => absurd hsrc hh⟩,
+        fun hl => (by rw [hsrc] at hl; cases hl), ?_⟩
+      show vget i n = _
+      rcases g2 with g2 | ⟨hi0, hv0⟩
+      · rw [g2]; exact hshares
+      · rw [hi0]
+        symm
+        apply List.sum_eq_zero
+        intro x hx
+        obtain ⟨c, hc, rfl⟩ := List.mem_map.mp hx
+        by_cases hf : feederM s v st c = some n
+        · rw [if_pos hf]
+          obtain ⟨cd, hcd⟩ := Option.isSome_iff_exists.mp (hwf.chLive n nd hnode c hc)
+          by_cases hkc : cd.comp.kind = .pmux
+          · exfalso
+            rw [feederM_mux s v st c cd hcd hkc] at hf
+            cases hsel : priInpAux (cd.parents.map (sget st)) (cd.parents.map (vget v)) 0 with
+            | none => rw [hsel] at hf; cases hf
+            | some k =>
+              rw [hsel] at hf
+              simp only [Option.map_some, Option.some.injEq] at hf
+              obtain ⟨h1, _, _, h4⟩ := pri_some_spec _ _ k hsel
+              rw [List.length_map] at h1
+              rw [getD_map_vget v cd.parents k h1, hf] at h4
+              exact h4 hv0
+          · rw [feederM_nonmux s v st c cd hcd hkc] at hf
+            rcases parents_cases' s hwf c cd hcd hkc with e0 | ⟨q, e1⟩
+            · rw [e0] at hf; cases hf
+            · rw [e1] at hf; simp only [List.head?_cons, Option.some.injEq] at hf; subst hf
+              obtain ⟨_, hbk⟩ := steady_cell s phase v i st hwf.bound hst c (mem_of_node s hwf c cd hcd)
+              rw [← hbk, (C01.sweep_args_are_row s phase ta v i st c q cd hcd e1 "").2, hv0]
+              have hns : cd.comp.kind ≠ .source := by
+                intro e
+                have := (hwf.rootSrc c cd hcd).mpr e
+                rw [e1] at this; cases this
+              exact curr_dead cd.comp hns hkc _ _ _
+        · rw [if_neg hf]
+    · -- single supply
+      have hns : nd.comp.kind ≠ .source := by
+        intro e
+        have := (hwf.rootSrc n nd hnode).mpr e
+        rw [h1] at this; cases this
+      rw [rowOf_fed s phase ta v i st n p nd hnode h1] at hr
+      rw [hr, hfm, h1]
+      refine ⟨rfl, rfl, fun q hq => ?_, fun hnl => ?_, fun hl => ?_, hshares⟩
+      · simp only [List.head?_cons, Option.some.injEq] at hq; rw [hq]
+      · obtain ⟨f1, f2⟩ := fed_node_ok s phase ta v i st hwf.bound hst hi n p nd hn hnode h1 hns hk hnl
+          (hphys n nd hnode) (hok.conv n nd hnode)
+        exact ⟨f1, fun _ => f2, fun hh => by simp at hh⟩
+      · refine ⟨by simp, ?_, live_load nd.comp hl _ _ _ _ _ _ (hi n)⟩
+        show ioOf s nd n v i st = 0
+        unfold ioOf; rw [hwf.loadLeaf n nd hnode hl]; rfl
+
+open Finset in
+/-- the rows of a steady state form the forest of `system_balance`, a PMux being fed by its selected input -/
+theorem node_balance_mux (s : SSys α) (hwf : TreeWF s) (hok : CompsOK s)
+    (phase : String) (ta : α) (v i : Vec α) (st : St) (hst : Steady s phase v i st) (hi : ∀ m, 0 ≤ vget i m) :
+    ∑ n ∈ s.topo.toFinset, (if feederM s v st n = none then (rowOf s phase ta v i st n).pwr else 0)
+      = ∑ n ∈ s.topo.toFinset,
+          (if isLoadB s n then (rowOf s phase ta v i st n).pwr + (rowOf s phase ta v i st n).loss
+           else (rowOf s phase ta v i st n).loss) := by
+  have hmem : ∀ n, n ∈ s.topo.toFinset → ∃ nd, s.node? n = some nd := fun n hn =>
+    node_of_mem s hwf n (List.mem_toFinset.mp hn)
+  have hload : ∀ n nd, s.node? n = some nd → (isLoadB s n = true ↔ nd.comp.kind.ctype = .LOAD) := by
+    intro n nd h; unfold isLoadB; rw [h]; simp
+  have hrow := fun n nd h => row_ok s hwf hok phase ta v i st hst hi n nd h
+  apply system_balance s.topo.toFinset (feederM s v st) ?_ (isLoadB s) (rowOf s phase ta v i st)
+  · intro c hc p hp
+    obtain ⟨cd, hcd⟩ := hmem c hc
+    obtain ⟨_, _, r3, _⟩ := hrow c cd hcd
+    obtain ⟨pd, hpd⟩ := Option.isSome_iff_exists.mp (hwf.parLive c cd hcd p (feederM_mem s v st c p cd hcd hp))
+    rw [r3 p hp, (hrow p pd hpd).1]
+  · intro n hn
+    obtain ⟨nd, hnd⟩ := hmem n hn
+    obtain ⟨_, _, _, _, _, r6⟩ := hrow n nd hnd
+    rw [r6, kidsM_eq s hwf v st n nd hnd, Finset.sum_filter, List.sum_toFinset _ (hwf.chNodup n nd hnd)]
+    congr 1
+    apply List.map_congr_left
+    intro c hc
+    obtain ⟨cd, hcd⟩ := Option.isSome_iff_exists.mp (hwf.chLive n nd hnd c hc)
+    rw [(hrow c cd hcd).2.1]
+  · intro n hn hl
+    obtain ⟨nd, hnd⟩ := hmem n hn
+    have hnl : nd.comp.kind.ctype ≠ .LOAD := by
+      intro e; rw [(hload n nd hnd).mpr e] at hl; cases hl
+    exact ((hrow n nd hnd).2.2.2.1 hnl).1
+  · intro n hn hl hp
+    obtain ⟨nd, hnd⟩ := hmem n hn
+    have hnl : nd.comp.kind.ctype ≠ .LOAD := by
+      intro e; rw [(hload n nd hnd).mpr e] at hl; cases hl
+    exact ((hrow n nd hnd).2.2.2.1 hnl).2.1 hp
+  · intro n hn hl
+    obtain ⟨nd, hnd⟩ := hmem n hn
+    exact (hrow n nd hnd).2.2.2.2.1 ((hload n nd hnd).mp hl)
+  · intro c hc p hp
+    obtain ⟨cd, hcd⟩ := hmem c hc
+    obtain ⟨pd, hpd⟩ := Option.isSome_iff_exists.mp (hwf.parLive c cd hcd p (feederM_mem s v st c p cd hcd hp))
+    exact List.mem_toFinset.mpr (mem_of_node s hwf p pd hpd)
+
+/-- **Whole-table energy balance, PMux included** (non-negative currents given). -/
+theorem table_balance_mux_of_nonneg_partial (s : SSys α) (hwf : TreeWF s) (hok : CompsOK s)
+    (phase : String) (ta : α) (v i : Vec α) (st : St) (hst : Steady s phase v i st) (hi : ∀ m, 0 ≤ vget i m) :
+    let rows := s.compRows phase ta v i st
+    ((rows.filter (·.typ == "SOURCE")).map rP).sum
+      = ((rows.filter (·.typ == "LOAD")).map fun r => rP r + rL r).sum
+        + ((rows.filter (·.typ != "LOAD")).map rL).sum := by
+  intro rows
+  have hnb := node_balance_mux s hwf hok phase ta v i st hst hi
+  rw [List.sum_toFinset _ hwf.nodup, List.sum_toFinset _ hwf.nodup] at hnb
+  rw [sum_filter_map, sum_filter_map, sum_filter_map, ← List.sum_map_add]
+  rw [compRows_numeric (fun r : Row α => if (r.typ == "SOURCE") = true then rP r else 0) (fun _ _ => rfl)]
+  show _ = (List.map _ (s.compRows phase ta v i st)).sum
+  rw [compRows_numeric (fun r : Row α => (if (r.typ == "LOAD") = true then rP r + rL r else 0)
+    + if (r.typ != "LOAD") = true then rL r else 0) (fun _ _ => rfl)]
+  have hL : ∀ n ∈ s.topo,
+      (if ((s.compRow phase ta v i st n "").1.typ == "SOURCE") = true then rP (s.compRow phase ta v i st n "").1
+        else 0) = (if feederM s v st n = none then (rowOf s phase ta v i st n).pwr else 0) := by
+    intro n hn
+    obtain ⟨nd, hnd⟩ := node_of_mem s hwf n hn
+    have htyp : (s.compRow phase ta v i st n "").1.typ = nd.comp.kind.ctype.name := by
+      unfold SSys.compRow; simp only [hnd]
+    obtain ⟨_, _, _, r4, r5, _⟩ := row_ok s hwf hok phase ta v i st hst hi n nd hnd
+    rw [htyp, kind_name_source]
+    by_cases hk : nd.comp.kind = .source
+    · have hf : feederM s v st n = none := by
+        rw [feederM_nonmux s v st n nd hnd (by rw [hk]; decide), (hwf.rootSrc n nd hnd).mpr hk]; rfl
+      simp [hk, hf, rowOf, cellsOf]
+    · simp only [hk, decide_false, Bool.false_eq_true, if_false]
+      by_cases hf : feederM s v st n = none
+      · rw [if_pos hf]
+        by_cases hl : nd.comp.kind.ctype = .LOAD
+        · exact absurd hf (r5 hl).1
+        · exact ((r4 hl).2.2 hf hk).symm
+      · rw [if_neg hf]
+  have hR : ∀ n ∈ s.topo,
+      ((if ((s.compRow phase ta v i st n "").1.typ == "LOAD") = true
+          then rP (s.compRow phase ta v i st n "").1 + rL (s.compRow phase ta v i st n "").1 else 0)
+        + if ((s.compRow phase ta v i st n "").1.typ != "LOAD") = true then rL (s.compRow phase ta v i st n "").1
+          else 0)
+      = (if isLoadB s n = true then (rowOf s phase ta v i st n).pwr + (rowOf s phase ta v i st n).loss
+          else (rowOf s phase ta v i st n).loss) := by
+    intro n hn
+    obtain ⟨nd, hnd⟩ := node_of_mem s hwf n hn
+    have htyp : (s.compRow phase ta v i st n "").1.typ = nd.comp.kind.ctype.name := by
+      unfold SSys.compRow; simp only [hnd]
+    have hl : isLoadB s n = decide (nd.comp.kind.ctype = .LOAD) := by unfold isLoadB; rw [hnd]
+    rw [htyp, hl, bne, ctype_name_load]
+    by_cases hk : nd.comp.kind.ctype = .LOAD <;> simp [hk, rowOf, cellsOf]
+  rw [List.map_congr_left hL, List.map_congr_left hR]
+  exact hnb
+
+/-- **Whole-table energy balance, PMux included** — final form.
+    Hypotheses: well-formed tree (`TreeWF`), accepted parameters with the exclusions of F01 and of a 0 V
+    Converter (`CompsOK`), non-negative phase values, exact steady state.  A PMux counts as fed by the
+    input it selected (Props/C05); a PMux without live input books no power. -/
+theorem table_balance_mux_partial (s : SSys α) (hwf : TreeWF s) (hok : CompsOK s)
+    (phase : String) (hpv : ∀ n nd, s.node? n = some nd → PhaseValOK (nd.pconf.ctx phase))
+    (ta : α) (v i : Vec α) (st : St) (hst : Steady s phase v i st) :
+    let rows := s.compRows phase ta v i st
+    ((rows.filter (·.typ == "SOURCE")).map rP).sum
+      = ((rows.filter (·.typ == "LOAD")).map fun r => rP r + rL r).sum
+        + ((rows.filter (·.typ != "LOAD")).map rL).sum :=
+  table_balance_mux_of_nonneg_partial s hwf hok phase ta v i st hst
+    (steady_currents_nonneg s hwf hok.phys phase hpv v i st hst.back)
+
+/-- **Row power identity, PMux rows**: the row shows the selected input's voltage as Vin (C05) and
+    satisfies `Power − Loss = |Vout|·Iout`, `Power = |Vin|·Iin` (all 0 without a live input). -/
+theorem row_power_identity_mux (s : SSys α) (phase : String) (ta : α) (v i : Vec α) (st : St)
+    (hb : ∀ n ∈ s.topo, n < s.hidx) (hst : Steady s phase v i st) (hi : ∀ m, 0 ≤ vget i m)
+    (n : Nat) (nd : SNode α) (hn : n ∈ s.topo) (hnode : s.node? n = some nd)
+    (hk : nd.comp.kind = .pmux) (hpar : nd.parents ≠ []) (hc : nd.comp.Phys) (d : String) :
+    let r := (s.compRow phase ta v i st n d).1
+    ∃ P L Vi Vo Ii Io, r.pwr = some P ∧ r.loss = some L ∧ r.vin = some Vi ∧ r.vout = some Vo ∧
+      r.iin = some Ii ∧ r.iout = some Io ∧ P - L = |Vo| * Io ∧ P = |Vi| * Ii := by
+  intro r
+  have hg := domainFree_compRow (fun r : Row α => (r.vin, r.vout, r.iin, r.iout, r.pwr, r.loss))
+    (fun _ _ => rfl) s phase ta v i st n d ""
+  simp only [Prod.mk.injEq] at hg
+  obtain ⟨g1, g2, g3, g4, g5, g6⟩ := hg
+  obtain ⟨VI, IO, c1, c2, c3, c4, c5, c6, _, _⟩ := compRow_consistent s phase ta v i st n nd hnode ""
+  have hrow := rowOf_mux s phase ta v i st n nd hnode hk hpar
+  unfold rowOf cellsOf rP rL at hrow
+  rw [c1, c4] at hrow
+  simp only [Option.getD_some, Cells.mk.injEq] at hrow
+  obtain ⟨e1, _, _, e4, _, _⟩ := hrow
+  subst e1; subst e4
+  obtain ⟨⟨f1, f2⟩, _⟩ := mux_node_ok s phase ta v i st hb hst hi n nd hn hnode hk hpar hc
+  exact ⟨_, _, _, _, _, _, g5.trans c5, g6.trans c6, g1.trans c1, g2.trans c2, g3.trans c3, g4.trans c4, f1, f2⟩
+
 /-! ### non-vacuity: Source(10 V, 1 Ω) → { RLoss(1 Ω) → ILoad(1 A), ILoad(2 A) }
     steady state: 7 V / 6 V at the two rails, 3 A / 1 A / 1 A / 2 A; 30 W = (6 W + 14 W) + (9 W + 1 W) -/
 
@@ -1270,6 +1823,357 @@ example : (tbSys.compRow "" 25 tbV tbI tbSt 1 "").1.pwr = some 7 ∧
     (tbSys.compRow "" 25 tbV tbI tbSt 1 "").1.loss = some 1 ∧
     (tbSys.compRow "" 25 tbV tbI tbSt 0 "").1.pwr = some 30 ∧
     (tbSys.compRow "" 25 tbV tbI tbSt 0 "").1.loss = some 9 := by decide +kernel
+
+/-! ### non-vacuity with a PMux: Source(10 V), Source(5 V) → PMux(rs 1 Ω) → ILoad(2 A)
+    the mux selects the 10 V input: 8 V out, 2 A from the first source, 0 A from the second;
+    20 W + 0 W = 16 W + (0 + 0 + 4 W) -/
+
+def mxS1 : Comp ℚ := { name := "S1", kind := .source, par := .const 0, vo := 10 }
+def mxS2 : Comp ℚ := { name := "S2", kind := .source, par := .const 0, vo := 5 }
+def mxMx : Comp ℚ := { name := "M", kind := .pmux, par := .const 0, rs := 1 }
+def mxLd : Comp ℚ := { name := "L", kind := .iload, par := .const 0, ii := 2 }
+def mxN0 : SNode ℚ := { comp := mxS1, parents := [], childs := [2], pconf := .names [] }
+def mxN1 : SNode ℚ := { comp := mxS2, parents := [], childs := [2], pconf := .names [] }
+def mxN2 : SNode ℚ := { comp := mxMx, parents := [0, 1], childs := [3], pconf := .names [] }
+def mxN3 : SNode ℚ := { comp := mxLd, parents := [2], childs := [] }
+def mxSys : SSys ℚ := { nodes := #[some mxN0, some mxN1, some mxN2, some mxN3], topo := [1, 0, 2, 3] }
+def mxV : Vec ℚ := #[10, 5, 8, 0]
+def mxI : Vec ℚ := #[2, 0, 2, 2]
+def mxSt : St := #[[false], [false], [false], [false]]
+
+theorem mxNodes (n : Nat) (nd : SNode ℚ) (h : mxSys.node? n = some nd) :
+    (n = 0 ∧ nd = mxN0) ∨ (n = 1 ∧ nd = mxN1) ∨ (n = 2 ∧ nd = mxN2) ∨ (n = 3 ∧ nd = mxN3) := by
+  rcases n with _ | _ | _ | _ | n
+  · have h2 : mxSys.node? 0 = some mxN0 := rfl
+    rw [h2] at h; exact Or.inl ⟨rfl, (Option.some.inj h).symm⟩
+  · have h2 : mxSys.node? 1 = some mxN1 := rfl
+    rw [h2] at h; exact Or.inr (Or.inl ⟨rfl, (Option.some.inj h).symm⟩)
+  · have h2 : mxSys.node? 2 = some mxN2 := rfl
+    rw [h2] at h; exact Or.inr (Or.inr (Or.inl ⟨rfl, (Option.some.inj h).symm⟩))
+  · have h2 : mxSys.node? 3 = some mxN3 := rfl
+    rw [h2] at h; exact Or.inr (Or.inr (Or.inr ⟨rfl, (Option.some.inj h).symm⟩))
+  · have h2 : mxSys.node? (n + 4) = none := by
+      simp [SSys.node?, mxSys]
+    rw [h2] at h; cases h
+
+theorem mxWF : TreeWF mxSys where
+  nodup := by decide
+  live := by
+    intro n
+    rcases n with _ | _ | _ | _ | n
+    · decide
+    · decide
+    · decide
+    · decide
+    · have h2 : mxSys.node? (n + 4) = none := by simp [SSys.node?, mxSys]
+      rw [h2]; simp [mxSys]
+  bound := by decide
+  order := by
+    intro p c pd h hc
+    rcases mxNodes p pd h with ⟨rfl, rfl⟩ | ⟨rfl, rfl⟩ | ⟨rfl, rfl⟩ | ⟨rfl, rfl⟩ <;>
+      simp [mxN0, mxN1, mxN2, mxN3] at hc <;> (try subst hc) <;> decide
+  parLive := by
+    intro n nd h p hp
+    rcases mxNodes n nd h with ⟨rfl, rfl⟩ | ⟨rfl, rfl⟩ | ⟨rfl, rfl⟩ | ⟨rfl, rfl⟩ <;>
+      simp [mxN0, mxN1, mxN2, mxN3] at hp <;> (try rcases hp with rfl | rfl) <;> rfl
+  chLive := by
+    intro n nd h c hc
+    rcases mxNodes n nd h with ⟨rfl, rfl⟩ | ⟨rfl, rfl⟩ | ⟨rfl, rfl⟩ | ⟨rfl, rfl⟩ <;>
+      simp [mxN0, mxN1, mxN2, mxN3] at hc <;> (try subst hc) <;> rfl
+  link := by
+    intro p c pd cd hp hc
+    rcases mxNodes p pd hp with ⟨rfl, rfl⟩ | ⟨rfl, rfl⟩ | ⟨rfl, rfl⟩ | ⟨rfl, rfl⟩ <;>
+      rcases mxNodes c cd hc with ⟨rfl, rfl⟩ | ⟨rfl, rfl⟩ | ⟨rfl, rfl⟩ | ⟨rfl, rfl⟩ <;>
+      simp [mxN0, mxN1, mxN2, mxN3]
+  chNodup := by
+    intro n nd h
+    rcases mxNodes n nd h with ⟨rfl, rfl⟩ | ⟨rfl, rfl⟩ | ⟨rfl, rfl⟩ | ⟨rfl, rfl⟩ <;>
+      simp [mxN0, mxN1, mxN2, mxN3]
+  parNodup := by
+    intro n nd h
+    rcases mxNodes n nd h with ⟨rfl, rfl⟩ | ⟨rfl, rfl⟩ | ⟨rfl, rfl⟩ | ⟨rfl, rfl⟩ <;>
+      simp [mxN0, mxN1, mxN2, mxN3]
+  rootSrc := by
+    intro n nd h
+    rcases mxNodes n nd h with ⟨rfl, rfl⟩ | ⟨rfl, rfl⟩ | ⟨rfl, rfl⟩ | ⟨rfl, rfl⟩ <;>
+      simp [mxN0, mxN1, mxN2, mxN3, mxS1, mxS2, mxMx, mxLd]
+  muxOnly := by
+    intro n nd h hl
+    rcases mxNodes n nd h with ⟨rfl, rfl⟩ | ⟨rfl, rfl⟩ | ⟨rfl, rfl⟩ | ⟨rfl, rfl⟩ <;>
+      simp [mxN0, mxN1, mxN2, mxN3, mxMx] at hl ⊢
+  loadLeaf := by
+    intro n nd h hl
+    rcases mxNodes n nd h with ⟨rfl, rfl⟩ | ⟨rfl, rfl⟩ | ⟨rfl, rfl⟩ | ⟨rfl, rfl⟩ <;>
+      simp [mxN0, mxN1, mxN2, mxN3, mxS1, mxS2, mxMx, mxLd, Kind.ctype] at hl ⊢
+
+theorem mxOK : CompsOK mxSys where
+  phys := by
+    intro n nd h
+    rcases mxNodes n nd h with ⟨rfl, rfl⟩ | ⟨rfl, rfl⟩ | ⟨rfl, rfl⟩ | ⟨rfl, rfl⟩ <;>
+      constructor <;>
+      simp [mxN0, mxN1, mxN2, mxN3, mxS1, mxS2, mxMx, mxLd, Comp.muxRs, Param.Nonneg, Param.interp]
+  f01 := by
+    intro n nd h hk
+    rcases mxNodes n nd h with ⟨rfl, rfl⟩ | ⟨rfl, rfl⟩ | ⟨rfl, rfl⟩ | ⟨rfl, rfl⟩ <;>
+      simp [mxN0, mxN1, mxN2, mxN3, mxS1, mxS2, mxMx, mxLd] at hk ⊢
+  conv := by
+    intro n nd h hk
+    rcases mxNodes n nd h with ⟨rfl, rfl⟩ | ⟨rfl, rfl⟩ | ⟨rfl, rfl⟩ | ⟨rfl, rfl⟩ <;>
+      simp [mxN0, mxN1, mxN2, mxN3, mxS1, mxS2, mxMx, mxLd] at hk
+
+theorem mxSteady : Steady mxSys "" mxV mxI mxSt where
+  fwd := ⟨mxSt, by decide +kernel⟩
+  back := by decide +kernel
+  flag := by
+    intro n h
+    rcases n with _ | _ | _ | _ | n
+    · revert h; decide
+    · revert h; decide
+    · revert h; decide
+    · revert h; decide
+    · simp [sget, mxSt] at h
+
+theorem mxPV : ∀ n nd, mxSys.node? n = some nd → PhaseValOK (nd.pconf.ctx "") := by
+  intro n nd h
+  rcases mxNodes n nd h with ⟨rfl, rfl⟩ | ⟨rfl, rfl⟩ | ⟨rfl, rfl⟩ | ⟨rfl, rfl⟩ <;>
+    simp [PhaseValOK, PhaseConf.ctx, mxN0, mxN1, mxN2, mxN3]
+
+/-- non-vacuity of `table_balance_mux_partial` … -/
+example :
+    let rows := mxSys.compRows "" 25 mxV mxI mxSt
+    ((rows.filter (·.typ == "SOURCE")).map rP).sum
+      = ((rows.filter (·.typ == "LOAD")).map fun r => rP r + rL r).sum
+        + ((rows.filter (·.typ != "LOAD")).map rL).sum :=
+  table_balance_mux_partial mxSys mxWF mxOK "" mxPV 25 mxV mxI mxSt mxSteady
+
+/-- … with the sums 20 W = 16 W + 4 W, and the mux row 20 W − 4 W = 8 V · 2 A fed from the 10 V input -/
+example :
+    let rows := mxSys.compRows "" 25 mxV mxI mxSt
+    ((rows.filter (·.typ == "SOURCE")).map rP).sum = 20 ∧
+    ((rows.filter (·.typ == "LOAD")).map fun r => rP r + rL r).sum = 16 ∧
+    ((rows.filter (·.typ != "LOAD")).map rL).sum = 4 ∧
+    (mxSys.compRow "" 25 mxV mxI mxSt 2 "").1.pwr = some 20 ∧
+    (mxSys.compRow "" 25 mxV mxI mxSt 2 "").1.loss = some 4 ∧
+    (mxSys.compRow "" 25 mxV mxI mxSt 2 "").1.vin = some 10 ∧
+    feederM mxSys mxV mxSt 2 = some 0 := by
+  decide +kernel
+
+example :
+    let r := (mxSys.compRow "" 25 mxV mxI mxSt 2 "").1
+    ∃ P L Vi Vo Ii Io, r.pwr = some P ∧ r.loss = some L ∧ r.vin = some Vi ∧ r.vout = some Vo ∧
+      r.iin = some Ii ∧ r.iout = some Io ∧ P - L = |Vo| * Io ∧ P = |Vi| * Ii :=
+  row_power_identity_mux mxSys "" 25 mxV mxI mxSt mxWF.bound mxSteady
+    (steady_currents_nonneg mxSys mxWF mxOK.phys "" mxPV mxV mxI mxSt mxSteady.back)
+    2 mxN2 (by decide) rfl rfl (by simp [mxN2]) (mxOK.phys 2 mxN2 rfl) ""
+
+/-! ### the two exclusions of `CompsOK` are needed: the statement without them fails for the code as it stands -/
+
+/-- the balance claimed for every well-formed tree with accepted parameters (no exclusion) -/
+def table_balance_full : Prop :=
+  ∀ (s : SSys ℚ), TreeWF s → (∀ n nd, s.node? n = some nd → nd.comp.Phys) →
+    ∀ (phase : String), (∀ n nd, s.node? n = some nd → PhaseValOK (nd.pconf.ctx phase)) →
+    ∀ (ta : ℚ) (v i : Vec ℚ) (st : St), Steady s phase v i st →
+      (((s.compRows phase ta v i st).filter (·.typ == "SOURCE")).map rP).sum
+        = (((s.compRows phase ta v i st).filter (·.typ == "LOAD")).map fun r => rP r + rL r).sum
+          + (((s.compRows phase ta v i st).filter (·.typ != "LOAD")).map rL).sum
+
+/-- … and with finding F01 excluded but a 0 V Converter allowed -/
+def table_balance_full_f01 : Prop :=
+  ∀ (s : SSys ℚ), TreeWF s → (∀ n nd, s.node? n = some nd → nd.comp.Phys) →
+    (∀ n nd, s.node? n = some nd → nd.comp.kind = .source → 0 ≤ nd.comp.vo ∨ nd.comp.rs = 0) →
+    ∀ (phase : String), (∀ n nd, s.node? n = some nd → PhaseValOK (nd.pconf.ctx phase)) →
+    ∀ (ta : ℚ) (v i : Vec ℚ) (st : St), Steady s phase v i st →
+      (((s.compRows phase ta v i st).filter (·.typ == "SOURCE")).map rP).sum
+        = (((s.compRows phase ta v i st).filter (·.typ == "LOAD")).map fun r => rP r + rL r).sum
+          + (((s.compRows phase ta v i st).filter (·.typ != "LOAD")).map rL).sum
+
+/-- F01 witness: Source(−12 V, 1 Ω) → ILoad(1 A); steady state −13 V, 1 A; 12 W ≠ 13 W + 1 W -/
+def f1Src : Comp ℚ := { name := "S", kind := .source, par := .const 0, vo := -12, rs := 1 }
+def f1Ld : Comp ℚ := { name := "L", kind := .iload, par := .const 0, ii := 1 }
+def f1N0 : SNode ℚ := { comp := f1Src, parents := [], childs := [1], pconf := .names [] }
+def f1N1 : SNode ℚ := { comp := f1Ld, parents := [0], childs := [] }
+def f1Sys : SSys ℚ := { nodes := #[some f1N0, some f1N1], topo := [0, 1] }
+
+theorem f1Nodes (n : Nat) (nd : SNode ℚ) (h : f1Sys.node? n = some nd) :
+    (n = 0 ∧ nd = f1N0) ∨ (n = 1 ∧ nd = f1N1) := by
+  rcases n with _ | _ | n
+  · have h2 : f1Sys.node? 0 = some f1N0 := rfl
+    rw [h2] at h; exact Or.inl ⟨rfl, (Option.some.inj h).symm⟩
+  · have h2 : f1Sys.node? 1 = some f1N1 := rfl
+    rw [h2] at h; exact Or.inr (⟨rfl, (Option.some.inj h).symm⟩)
+  · have h2 : f1Sys.node? (n + 2) = none := by simp [SSys.node?, f1Sys]
+    rw [h2] at h; cases h
+
+theorem f1WF : TreeWF f1Sys where
+  nodup := by decide
+  live := by
+    intro n
+    rcases n with _ | _ | n
+    · decide
+    · decide
+    · have h2 : f1Sys.node? (n + 2) = none := by simp [SSys.node?, f1Sys]
+      rw [h2]; simp [f1Sys]
+  bound := by decide
+  order := by
+    intro n c nd h hc
+    rcases f1Nodes n nd h with ⟨rfl, rfl⟩ | ⟨rfl, rfl⟩ <;>
+      simp [f1N0, f1N1, f1Src, f1Ld] at hc <;> (try subst hc) <;> decide
+  parLive := by
+    intro n nd h p hp
+    rcases f1Nodes n nd h with ⟨rfl, rfl⟩ | ⟨rfl, rfl⟩ <;>
+      simp [f1N0, f1N1, f1Src, f1Ld] at hp <;> (try subst hp) <;> rfl
+  chLive := by
+    intro n nd h c hc
+    rcases f1Nodes n nd h with ⟨rfl, rfl⟩ | ⟨rfl, rfl⟩ <;>
+      simp [f1N0, f1N1, f1Src, f1Ld] at hc <;> (try subst hc) <;> rfl
+  link := by
+    intro p c pd cd hp hc
+    rcases f1Nodes p pd hp with ⟨rfl, rfl⟩ | ⟨rfl, rfl⟩ <;>
+      rcases f1Nodes c cd hc with ⟨rfl, rfl⟩ | ⟨rfl, rfl⟩ <;>
+      simp [f1N0, f1N1, f1Src, f1Ld]
+  chNodup := by
+    intro n nd h
+    rcases f1Nodes n nd h with ⟨rfl, rfl⟩ | ⟨rfl, rfl⟩ <;>
+      simp [f1N0, f1N1, f1Src, f1Ld]
+  parNodup := by
+    intro n nd h
+    rcases f1Nodes n nd h with ⟨rfl, rfl⟩ | ⟨rfl, rfl⟩ <;>
+      simp [f1N0, f1N1, f1Src, f1Ld]
+  rootSrc := by
+    intro n nd h
+    rcases f1Nodes n nd h with ⟨rfl, rfl⟩ | ⟨rfl, rfl⟩ <;>
+      simp [f1N0, f1N1, f1Src, f1Ld]
+  muxOnly := by
+    intro n nd h hl
+    rcases f1Nodes n nd h with ⟨rfl, rfl⟩ | ⟨rfl, rfl⟩ <;>
+      simp [f1N0, f1N1, f1Src, f1Ld] at hl ⊢
+  loadLeaf := by
+    intro n nd h hl
+    rcases f1Nodes n nd h with ⟨rfl, rfl⟩ | ⟨rfl, rfl⟩ <;>
+      simp [f1N0, f1N1, f1Src, f1Ld, Kind.ctype] at hl ⊢
+
+theorem f1Phys : ∀ n nd, f1Sys.node? n = some nd → nd.comp.Phys := by
+  intro n nd h
+  rcases f1Nodes n nd h with ⟨rfl, rfl⟩ | ⟨rfl, rfl⟩ <;>
+    constructor <;>
+    simp [f1N0, f1N1, f1Src, f1Ld, Comp.muxRs, Param.Nonneg, Param.interp]
+
+theorem f1PV : ∀ n nd, f1Sys.node? n = some nd → PhaseValOK (nd.pconf.ctx "") := by
+  intro n nd h
+  rcases f1Nodes n nd h with ⟨rfl, rfl⟩ | ⟨rfl, rfl⟩ <;>
+    simp [PhaseValOK, PhaseConf.ctx, f1N0, f1N1, f1Src, f1Ld]
+
+theorem f1Steady : Steady f1Sys "" #[-13, 0] #[1, 1] #[[false], [false]] where
+  fwd := ⟨#[[false], [false]], by decide +kernel⟩
+  back := by decide +kernel
+  flag := by
+    intro n h
+    rcases n with _ | _ | n
+    · revert h; decide
+    · revert h; decide
+    · simp [sget] at h
+
+theorem table_balance_full_fails : ¬ table_balance_full := by
+  intro h
+  have := h f1Sys f1WF f1Phys "" f1PV 25 #[-13, 0] #[1, 1] #[[false], [false]] f1Steady
+  revert this
+  decide +kernel
+
+/-- 0 V Converter witness: Source(5 V) → Converter(vo = 0, iq = 0.1 A); steady state 5 V / 0 V, 0 A;
+    the source delivers 0 W, the converter row books 0.5 W of Loss -/
+def c0Src : Comp ℚ := { name := "S", kind := .source, par := .const 0, vo := 5 }
+def c0Cv : Comp ℚ := { name := "C", kind := .converter, par := .const (9/10), vo := 0, iq := 1/10 }
+def c0N0 : SNode ℚ := { comp := c0Src, parents := [], childs := [1], pconf := .names [] }
+def c0N1 : SNode ℚ := { comp := c0Cv, parents := [0], childs := [], pconf := .names [] }
+def c0Sys : SSys ℚ := { nodes := #[some c0N0, some c0N1], topo := [0, 1] }
+
+theorem c0Nodes (n : Nat) (nd : SNode ℚ) (h : c0Sys.node? n = some nd) :
+    (n = 0 ∧ nd = c0N0) ∨ (n = 1 ∧ nd = c0N1) := by
+  rcases n with _ | _ | n
+  · have h2 : c0Sys.node? 0 = some c0N0 := rfl
+    rw [h2] at h; exact Or.inl ⟨rfl, (Option.some.inj h).symm⟩
+  · have h2 : c0Sys.node? 1 = some c0N1 := rfl
+    rw [h2] at h; exact Or.inr (⟨rfl, (Option.some.inj h).symm⟩)
+  · have h2 : c0Sys.node? (n + 2) = none := by simp [SSys.node?, c0Sys]
+    rw [h2] at h; cases h
+
+theorem c0WF : TreeWF c0Sys where
+  nodup := by decide
+  live := by
+    intro n
+    rcases n with _ | _ | n
+    · decide
+    · decide
+    · have h2 : c0Sys.node? (n + 2) = none := by simp [SSys.node?, c0Sys]
+      rw [h2]; simp [c0Sys]
+  bound := by decide
+  order := by
+    intro n c nd h hc
+    rcases c0Nodes n nd h with ⟨rfl, rfl⟩ | ⟨rfl, rfl⟩ <;>
+      simp [c0N0, c0N1, c0Src, c0Cv] at hc <;> (try subst hc) <;> decide
+  parLive := by
+    intro n nd h p hp
+    rcases c0Nodes n nd h with ⟨rfl, rfl⟩ | ⟨rfl, rfl⟩ <;>
+      simp [c0N0, c0N1, c0Src, c0Cv] at hp <;> (try subst hp) <;> rfl
+  chLive := by
+    intro n nd h c hc
+    rcases c0Nodes n nd h with ⟨rfl, rfl⟩ | ⟨rfl, rfl⟩ <;>
+      simp [c0N0, c0N1, c0Src, c0Cv] at hc <;> (try subst hc) <;> rfl
+  link := by
+    intro p c pd cd hp hc
+    rcases c0Nodes p pd hp with ⟨rfl, rfl⟩ | ⟨rfl, rfl⟩ <;>
+      rcases c0Nodes c cd hc with ⟨rfl, rfl⟩ | ⟨rfl, rfl⟩ <;>
+      simp [c0N0, c0N1, c0Src, c0Cv]
+  chNodup := by
+    intro n nd h
+    rcases c0Nodes n nd h with ⟨rfl, rfl⟩ | ⟨rfl, rfl⟩ <;>
+      simp [c0N0, c0N1, c0Src, c0Cv]
+  parNodup := by
+    intro n nd h
+    rcases c0Nodes n nd h with ⟨rfl, rfl⟩ | ⟨rfl, rfl⟩ <;>
+      simp [c0N0, c0N1, c0Src, c0Cv]
+  rootSrc := by
+    intro n nd h
+    rcases c0Nodes n nd h with ⟨rfl, rfl⟩ | ⟨rfl, rfl⟩ <;>
+      simp [c0N0, c0N1, c0Src, c0Cv]
+  muxOnly := by
+    intro n nd h hl
+    rcases c0Nodes n nd h with ⟨rfl, rfl⟩ | ⟨rfl, rfl⟩ <;>
+      simp [c0N0, c0N1, c0Src, c0Cv] at hl ⊢
+  loadLeaf := by
+    intro n nd h hl
+    rcases c0Nodes n nd h with ⟨rfl, rfl⟩ | ⟨rfl, rfl⟩ <;>
+      simp [c0N0, c0N1, c0Src, c0Cv, Kind.ctype] at hl ⊢
+
+theorem c0Phys : ∀ n nd, c0Sys.node? n = some nd → nd.comp.Phys := by
+  intro n nd h
+  rcases c0Nodes n nd h with ⟨rfl, rfl⟩ | ⟨rfl, rfl⟩ <;>
+    constructor <;>
+    simp [c0N0, c0N1, c0Src, c0Cv, Comp.muxRs, Param.Nonneg, Param.interp] <;> norm_num
+
+theorem c0PV : ∀ n nd, c0Sys.node? n = some nd → PhaseValOK (nd.pconf.ctx "") := by
+  intro n nd h
+  rcases c0Nodes n nd h with ⟨rfl, rfl⟩ | ⟨rfl, rfl⟩ <;>
+    simp [PhaseValOK, PhaseConf.ctx, c0N0, c0N1, c0Src, c0Cv]
+
+theorem c0Steady : Steady c0Sys "" #[5, 0] #[0, 0] #[[false], [false]] where
+  fwd := ⟨#[[false], [false]], by decide +kernel⟩
+  back := by decide +kernel
+  flag := by
+    intro n h
+    rcases n with _ | _ | n
+    · revert h; decide
+    · revert h; decide
+    · simp [sget] at h
+
+theorem table_balance_full_f01_fails : ¬ table_balance_full_f01 := by
+  intro h
+  have := h c0Sys c0WF c0Phys (by
+    intro n nd hn hk
+    rcases c0Nodes n nd hn with ⟨rfl, rfl⟩ | ⟨rfl, rfl⟩ <;> simp [c0N0, c0N1, c0Src, c0Cv] at hk ⊢)
+    "" c0PV 25 #[5, 0] #[0, 0] #[[false], [false]] c0Steady
+  revert this
+  decide +kernel
 
 end C02
 end SysLoss
